@@ -48,6 +48,66 @@ def whole_body_contained(fi):
         (h.type is None or "Exception" in ast.unparse(h.type)) and not handler_reraises(h) for h in body[0].handlers)
 
 
+def endpoint_survives_errors(ctx, repo, rule):
+    from ..absint import ClassRef, Interp, Native, Obj, Opaque, PyRaise, Undecided
+    from ..core import AnalysisError
+    P = "GeckoAsyncUdpProtocol"
+
+    def build():
+        it = Interp(repo, max_depth=8)
+        state = {"resolved": False}
+        fut = Obj(None, {"done": Native(lambda a, k: state["resolved"], "done"),
+                         "set_result": Native(lambda a, k: state.__setitem__("resolved", True), "set_result"),
+                         "cancelled": Native(lambda a, k: False, "cancelled")}, name="future")
+        tr = Obj(None, {"sendto": Native(lambda a, k: None, "sendto"), "close": Native(lambda a, k: None, "close"),
+                        "is_closing": Native(lambda a, k: False, "is_closing")}, name="transport")
+        try:
+            o = it.apply(ClassRef(repo.cls(P)), [fut, ("10.0.0.1", 10022)], {})
+            it.call(repo.method(P, "connection_made"), o, [tr])
+            if it.getattr(o, "isopen") is not True:
+                raise AnalysisError(f"{P}: not open after connection_made on the model transport")
+        except (PyRaise, Undecided) as e:
+            raise AnalysisError(f"{P}(future, destination) / connection_made cannot be interpreted: {e}")
+        return it, o, state
+
+    er = repo.method(P, "error_received")
+    it, o, state = build()
+    raised = None
+    try:
+        it.call(er, o, [Opaque("OSError(ENETUNREACH)")])
+        is_open = it.getattr(o, "isopen")
+    except PyRaise as e:
+        raised, is_open = e.what, None
+    except Undecided as e:
+        raise AnalysisError(f"{er.qual}: {e}")
+    ctx.ob(rule, f"{er.qual}::does-not-raise", raised is None, f"{er.qual} raises {raised} into the event loop's error callback", er.loc)
+    if raised is None:
+        ctx.ob(rule, f"{er.qual}::endpoint-stays-open", is_open is True and not state["resolved"],
+               f"after {er.qual}(exc) the endpoint reads isopen={is_open!r}, connection-lost future resolved={state['resolved']}: one OS-reported send error (ICMP unreachable while the spa is away) closes the "
+               f"connection for good - the ping loop leaves its `while isopen` without raising any event, so the loss is never reported and nothing reconnects",
+               er.loc, sample={"rule": rule, "after": "error_received", "isopen": str(is_open), "future_resolved": state["resolved"]})
+    it, o, state = build()
+    try:
+        it.call(repo.method(P, "disconnect"), o, [])
+        closed = it.getattr(o, "isopen") is False and state["resolved"]
+    except (PyRaise, Undecided) as e:
+        raise AnalysisError(f"{P}.disconnect: {e}")
+    ctx.ob(rule, f"{P}.disconnect::closes-and-resolves", closed, f"{P}.disconnect() leaves the endpoint open or the connection-lost future unresolved (model control)", repo.method(P, "disconnect").loc)
+
+
+def driver_tasks(repo):
+    """[(method, task key)] of the coroutines the manager starts on entering its context"""
+    aenter = repo.method(MAN, "__aenter__")
+    drivers = []
+    for n in walk_no_nested(aenter.node):
+        if isinstance(n, ast.Call) and call_name(n) == "add_task" and n.args and isinstance(n.args[0], ast.Call):
+            fn = call_name(n.args[0])
+            m = repo.method(MAN, fn, required=False)
+            if m is not None:
+                drivers.append((m, repo.try_fold(n.args[2]) if len(n.args) > 2 else None))
+    return drivers
+
+
 def check(ctx):
     repo = Repo()
     cg = callgraph(repo)
@@ -57,13 +117,7 @@ def check(ctx):
 
     # ---- locate the driver by role -------------------------------------------------
     aenter = repo.method(MAN, "__aenter__")
-    drivers = []
-    for n in walk_no_nested(aenter.node):
-        if isinstance(n, ast.Call) and call_name(n) == "add_task" and n.args and isinstance(n.args[0], ast.Call):
-            fn = call_name(n.args[0])
-            m = repo.method(MAN, fn, required=False)
-            if m is not None:
-                drivers.append((m, repo.try_fold(n.args[2]) if len(n.args) > 2 else None))
+    drivers = driver_tasks(repo)
     ctx.ob("R1", "driver::started-on-enter", len(drivers) == 1, f"expected one driver task started in {MAN}.__aenter__, found {[d[0].qual for d in drivers]}", aenter.loc)
     if len(drivers) != 1:
         return
@@ -187,5 +241,7 @@ def check(ctx):
     ctx.rule("R4", "what a (re)connect downloads is the spa's block: the status-block transfer behind connect and refresh installs exactly the requested bytes or nothing, also when an attempt is abandoned part-way and retried (C01's async assembler model borrowed) - a necessary condition for 'values mirror the spa'")
     from .c01 import async_assembly_model
     async_assembly_model(ctx.borrowed("R4", "C01"), repo)
+    ctx.rule("R5", "a transient network error does not end the watch: the endpoint, built by its own constructor and interpreted on a model transport, is still open and its connection-lost future unresolved after error_received(exc) (the operating system reports ICMP / route errors there while the spa is away; the ping loop runs only `while isopen` and exits without an event otherwise), and the call does not raise; positive control: disconnect() closes it and resolves the future")
+    endpoint_survives_errors(ctx, repo, "R5")
     ctx.note("NOT decided (the headline of the property): that recovery happens, within what time, after which fault scripts; that the facade's values mirror the spa afterwards. States that are terminal by design (CONNECTING after 'cannot find spa pack') are not flagged.")
     ctx.assume("a ping loop exists in the states named by the ping-received row (a connection was established before the error)")
